@@ -897,8 +897,9 @@ class ClassAttributeChecker:
         ):
             return
 
-        # name mangling
-        if attr_name.startswith("__") and hasattr(typ, f"_{typ.__name__}{attr_name}"):
+        # name mangling; typ may be a super object, which has no __name__
+        cls = typ.__thisclass__ if isinstance(typ, super) else typ
+        if attr_name.startswith("__") and hasattr(typ, f"_{cls.__name__}{attr_name}"):
             return
 
         # can't be sure whether it exists if class has __getattr__
